@@ -1325,6 +1325,7 @@ func (mgr *Manager) UpdateTag(name string, operation UpdateTagOperation) error {
 					return fmt.Errorf("unknown stream id %d", maxUsedStreamID)
 				}
 				newTag := *tag
+				oldUncertain := tag.Uncertain
 				newTag.Matches = tag.Matches.Copy()
 				newTag.Uncertain = tag.Uncertain.Copy()
 				// update mark streamid tag matches without parsing the definition again
@@ -1388,7 +1389,8 @@ func (mgr *Manager) UpdateTag(name string, operation UpdateTagOperation) error {
 				tag = &newTag
 				mgr.tags[name] = tag
 				mgr.inheritTagUncertainty()
-				mgr.tags[name].Uncertain = bitmask.LongBitmask{}
+				// the changed streams are decided for the mark itself, but keep what was uncertain before (a pending query change)
+				mgr.tags[name].Uncertain = oldUncertain
 				mgr.startTaggingJobIfNeeded()
 				mgr.startConverterJobIfNeeded()
 			}
